@@ -80,6 +80,21 @@ def _table(ctx):
                 n += 1
                 _table_case(ctx, cls, allowed, combo, True,
                             expected=expected)
+    # an empty chunk in the middle is not the end of the stream: what is
+    # read after it still counts
+    for combo in (((True, True), (True, False), (True, False)),
+                  ((True, False), (True, False), (True, True)),
+                  ((True, True), (True, False), (True, True))):
+        for empties in ({0}, {1}):
+            n += 1
+            _table_case(ctx, cls, None, combo, True, reads=3,
+                        empties=empties, late=True)
+    # a source without close(): close() still finishes the inspectors
+    for combo in (((False, True), (False, False), (False, False)),
+                  ((False, False), (False, False), (False, False)),
+                  ((False, True), (False, False), (False, True))):
+        n += 1
+        _table_case(ctx, cls, None, combo, True, reads=1, closable=False)
     # fault then decision: an inspector that failed still counts as a match
     for finished in (True,):
         _table_case(ctx, cls, None, ((True, True), (False, True),
@@ -91,23 +106,32 @@ def _table(ctx):
 
 
 def _table_case(ctx, cls, allowed, combo, finished, faults=None, reads=0,
-                expected=None, rule='R3.1'):
+                expected=None, rule='R3.1', empties=(), closable=True,
+                late=False):
     rep, world = ctx.report, ctx.world
     plans = {'raw': {'complete': (True,), 'match': (True,)}}
     for name, (c, m) in zip(NAMES[1:], combo):
         plans[name] = {'complete': (c,), 'match': (m,)}
+        if late:
+            # the flags are reached only once every chunk has been fed
+            plans[name] = {'complete': (False,) * (reads - 1) + (c,),
+                           'match': (False,) * (reads - 1) + (m,)}
         if faults and name in faults:
             plans[name]['fault'] = faults[name]
-    label = 'allowed=%s flags=%s finished=%s%s%s' % (
+    label = 'allowed=%s flags=%s finished=%s%s%s%s%s' % (
         allowed, dict(zip(NAMES[1:], combo)), finished,
         ' faults=%s' % faults if faults else '',
-        ' expected_format=%s' % expected if expected else '')
+        ' expected_format=%s' % expected if expected else '',
+        ' empty chunk(s) at %s of %d reads' % (sorted(empties), reads)
+        if empties else '',
+        ' source without close()' if not closable else '')
     holder = {}
 
     def thunk(interp):
         restore, made = install(world, interp, plans)
         try:
-            src = source(max(reads, 1), 'file')
+            src = source(max(reads, 1), 'file', empties=empties,
+                         closable=closable)
             kw = {}
             if allowed is not None:
                 kw['allowed_formats'] = ListV([K(a) for a in allowed])
@@ -148,8 +172,8 @@ def _table_entry(rep, rule, key, label, v, plans, allowed, combo, finished):
     considered = [nm for nm in NAMES if allowed is None or not allowed or
                   nm in allowed]
     non_raw = [nm for nm in considered if nm != 'raw']
-    complete = all(plans[nm]['complete'][0] for nm in non_raw)
-    matches = [nm for nm in non_raw if plans[nm]['match'][0]]
+    complete = all(plans[nm]['complete'][-1] for nm in non_raw)
+    matches = [nm for nm in non_raw if plans[nm]['match'][-1]]
     if not complete and not finished:
         want_formats, want_format = None, None
     else:
